@@ -148,14 +148,21 @@ func (c HTTPCase) outside() string {
 
 // pick returns the first failure that is not a listed known finding, so that
 // an unrepaired known defect does not hide what else a case shows (KnownSig
-// counts the hits of the listed ones).
+// counts the hits of the listed ones); the other unlisted failures of the same
+// case are appended to its message.
 func pick(fs []*evid.Failure) *evid.Failure {
+	var first *evid.Failure
 	for _, f := range fs {
-		if !evid.KnownSig(f.Sig) {
-			return f
+		if evid.KnownSig(f.Sig) {
+			continue
+		}
+		if first == nil {
+			first = &evid.Failure{Sig: f.Sig, Msg: f.Msg}
+		} else if len(first.Msg) < 3000 {
+			first.Msg += "\nalso [" + f.Sig + "]: " + f.Msg
 		}
 	}
-	return nil
+	return first
 }
 
 func orphanCount() int {
